@@ -82,6 +82,24 @@ def _direct_writes_sup(sup):
     return out
 
 
+def _success_requires(sup, node):
+    """Every return of the root that may carry Ok has passed `node`: with the node removed, each state
+    reaching the root's return knows `_0` to be the Err variant (variant-aware exploration; an unknown
+    variant counts as a possible Ok)."""
+    ps = PathSens(sup)
+    reached = ps.explore([(sup.entry, {})], removed_nodes=[node])
+    rets = [n for n in reached if not n[0] and sup.root.blocks[n[1]]["term"]["k"] == "return"]
+    for n in rets:
+        for st in reached[n]:
+            f_end = dict(st)
+            for s_ in sup.root.blocks[n[1]]["stmts"]:
+                ps._stmt(f_end, (), s_)
+            if f_end.get(((), 0)) != ("var", 1):
+                return False
+    # and the root does return somewhere in the full graph
+    return any(not n[0] and sup.root.blocks[n[1]]["term"]["k"] == "return" for n in sup.nodes())
+
+
 @rule("R03.1", 10, "framing: JSON writes exactly one '\\n' after each document, YAML exactly one '---\\n' before, MessagePack nothing", ["C03", "C10"])
 def r03_1(ctx):
     lib = ctx.lib
@@ -106,7 +124,7 @@ def r03_1(ctx):
             if fmt == "json":
                 after = all(sup.dominates(sn, wn) and sn != wn for sn, _ in sers)
                 ctx.ob(f"{key}:newline-after-document", after, sup.site(wn), "newline follows the serialised document" if after else "newline is not written after the document")
-                allok = all(sup.dominates(wn, on) for on in oks) and bool(oks)
+                allok = _success_requires(sup, wn)
                 ctx.ob(f"{key}:newline-on-every-success", allok, sup.site(wn), "every Ok return has passed the newline write" if allok else "a success path skips the newline (two documents would share a line)")
             else:
                 before = all(sup.dominates(wn, sn) and sn != wn for sn, _ in sers)
@@ -230,7 +248,7 @@ def r03_4(ctx):
             if cb and cb.file == ep.file and cb.raw["def_kind"] == "Fn" and cb not in bodies:
                 bodies.append(cb)
         for b in bodies:
-            tcalls = [(bb, t) for bb, t in b.calls() if (fn_of(t) or {}).get("trait") == "Output" and fn_of(t)["name"].startswith("transcode_")]
+            tcalls = [(bb, t) for bb, t in b.calls() if common.output_role(ctx.facts, fn_of(t)) in ("from", "value")]
             heads = sorted({v for u, v in b.back_edges()})
             for h in heads:
                 srcs = [u for u, v in b.back_edges() if v == h]
@@ -342,7 +360,7 @@ def r05_1(ctx):
         # trait-object / generic dispatch to local impls (Read for local readers): treat every local
         # io::Read / Iterator impl method as reachable once any streaming root is
     for b in lib.bodies:
-        if b.raw.get("impl_trait") in ("std::io::Read", "std::io::BufRead", "std::iter::Iterator", "serde::de::Visitor", "serde::Serialize", "serde::de::DeserializeSeed", "Output"):
+        if b.raw.get("impl_trait") in ("std::io::Read", "std::io::BufRead", "std::iter::Iterator", "serde::de::Visitor", "serde::Serialize", "serde::de::DeserializeSeed", common.output_trait(ctx.facts)["path"]):
             stack.append(b.id)
     while stack:
         x = stack.pop()
@@ -573,24 +591,48 @@ def r10_2(ctx):
     ok = coll_events == {"YAML_SEQUENCE_START_EVENT", "YAML_MAPPING_START_EVENT"}
     ctx.ob("yaml:collection-events", ok, site(cn), f"events classifying a document as a collection: {sorted(coll_events)}")
     ctx.ob("yaml:scalar-events", scalar_events == {"YAML_SCALAR_EVENT"}, site(cn), f"events classifying a document as a scalar: {sorted(scalar_events)}")
-    first_wins = all((fn_of(t) or {}).get("name") != "insert" for _, t in cn.calls()) and any((fn_of(t) or {}).get("name") == "get_or_insert" for _, t in cn.calls())
-    # the kind slot (receiver of get_or_insert) is otherwise only reset to None / taken, never assigned Some(..)
-    slots = set()
-    for _, t in cn.calls():
-        if (fn_of(t) or {}).get("name") == "get_or_insert" and t["args"]:
-            tr = trace(cn, t["args"][0])
-            for st in tr.steps:
-                if st[0] == "field":
-                    slots.add((st[1], st[2]))
-                    break
-    for cb in common.chunker(ctx.facts)["bodies"]:
+    chb = common.chunker(ctx.facts)["bodies"]
+    chb = [x for x in chb if x.file == cn.file]
+    # the kind slot: an Option<DocumentKind> field; it may be filled only while it is empty
+    # (get_or_insert, or a store of Some(..) under `slot.is_none()`), and emptied by None / take()
+    first_wins = all((fn_of(t) or {}).get("name") != "insert" for x in chb for _, t in x.calls())
+    fills = 0
+    for cb in chb:
+        for _, t in cb.calls():
+            if (fn_of(t) or {}).get("name") == "get_or_insert" and t["args"] and "DocumentKind" in cb.local_ty(t["dest"]["l"]):
+                fills += 1
         for bi, blk in enumerate(cb.blocks):
             for s_ in blk["stmts"]:
-                if s_["k"] == "assign" and s_["p"]["pr"] and s_["p"]["pr"][-1]["k"] == "field" and (s_["p"]["pr"][-1]["name"], s_["p"]["pr"][-1].get("adt")) in slots:
-                    rv = s_["rv"]
-                    is_none = (rv["k"] == "aggregate" and rv.get("variant") == "None") or (rv["k"] == "use" and is_place(rv["op"]) and (lambda o: bool(o.origin and o.origin[0] == "agg" and o.origin[1]["rv"].get("variant") == "None"))(trace(cb, rv["op"])))
-                    if not is_none:
-                        first_wins = False
+                if not (s_["k"] == "assign" and s_["p"]["pr"] and s_["p"]["pr"][-1]["k"] == "field" and "Option<" in s_["p"]["pr"][-1].get("ty", "") and "DocumentKind" in s_["p"]["pr"][-1].get("ty", "")):
+                    continue
+                fld = (s_["p"]["pr"][-1]["name"], s_["p"]["pr"][-1].get("adt"))
+                rv = s_["rv"]
+                is_none = (rv["k"] == "aggregate" and rv.get("variant") == "None") or (rv["k"] == "use" and is_place(rv["op"]) and (lambda o: bool(o.origin and o.origin[0] == "agg" and o.origin[1]["rv"].get("variant") == "None"))(trace(cb, rv["op"])))
+                if is_none:
+                    continue
+                # a store of Some(..): must lie on the empty edge of a test of the same field
+                guarded = False
+                for tb, tt in cb.calls():
+                    tf = fn_of(tt) or {}
+                    if tf.get("name") not in ("is_none", "is_some") or not tt["args"] or tt["target"] is None:
+                        continue
+                    a = trace(cb, tt["args"][0])
+                    if not any(st[0] == "field" and (st[1], st[2]) == fld for st in a.steps):
+                        continue
+                    sw = cb.blocks[tt["target"]]["term"]
+                    if sw["k"] != "switch":
+                        continue
+                    zero = [x for v, x in sw["targets"] if v == 0]
+                    if not zero:
+                        continue
+                    edge = (tt["target"], "otherwise", sw["otherwise"]) if tf["name"] == "is_none" else (tt["target"], 0, zero[0])
+                    if cb.edge_dominates(edge[0], edge[1], edge[2], bi):
+                        guarded = True
+                if guarded:
+                    fills += 1
+                else:
+                    first_wins = False
+    first_wins = first_wins and fills >= 1
     ctx.ob("yaml:first-node-decides", first_wins, site(cn), "the first node event fixes the document kind (get_or_insert)" if first_wins else "a later node can overwrite the document kind")
     # the YAML trial answers with is_collection of the first chunk
     yt = trials["yaml"]
